@@ -937,3 +937,23 @@ class ConnWatch(object):
 
         conn._recv_datagram = recv_datagram
         conn._recv_message = recv_message
+
+
+def position_seq(sender_conn, receiver_conn, value):
+    """white-box positioning (declared in evidence where used): move a sender's datagram counter, and the peer's
+    receive window with it, close to the 16-bit wrap so that a short history crosses it"""
+    sender_conn.seq_sending = SeqNum(value)
+    receiver_conn.bitfield_pkt.current_seqnum = SeqNum(value)
+    receiver_conn.bitfield_pkt.bits = 0
+
+
+def client_disconnect_and_wait(w, ch):
+    """UdpClient.disconnect() + the real waitForDisconnect(), whose time.sleep() advances the world"""
+    w.clock.on_sleep = lambda d: w.step(max(d, 0.017), clients=False)
+    try:
+        ch.udp.disconnect()
+        ch._note_status()
+        ch.udp.waitForDisconnect()
+    finally:
+        w.clock.on_sleep = None
+    ch.alive = False
